@@ -65,7 +65,7 @@ TInit == /\ l = 2
 Legal(s, lb) ==
   /\ lb.c \in Slots
   /\ lb.d \in Slots \cup {0}
-  /\ IF lb.op \in CtorOps1 \cup {"ctorCopy", "ctorMove", "ctorFromVector"}
+  /\ IF lb.op \in CtorOpsBig \cup {"ctorCopy", "ctorMove", "ctorFromVector"}
      THEN ~s[lb.c].ex /\ (lb.d # 0 => s[lb.d].ex /\ lb.d # lb.c)
      ELSE /\ s[lb.c].ex
           /\ (lb.d # 0 => s[lb.d].ex)
